@@ -49,6 +49,7 @@ class FakeHW(HardwareLayerBase):
         self.wlog: list[tuple[str, float]] = []
         self.fail_batch = False      # read/read_batch/write_batch and single write issued *first* in an event
         self.fail_single_write = False
+        self.fail_single_after = None
         self.fail_connect = False
         self.partial = False          # a failing write reaches the hardware (first register of a batch / the single value) before raising
         self.calls = 0
@@ -67,6 +68,12 @@ class FakeHW(HardwareLayerBase):
 
     def write(self, value, r):
         self.calls += 1
+        if self.fail_single_after is not None:
+            # the first `fail_single_after` single writes of this event succeed, the following ones fail
+            if self.fail_single_after > 0:
+                self.fail_single_after -= 1
+            else:
+                raise HardwareLayerException("write failed")
         if self.fail_single_write:
             if self.partial:
                 self.out[r.name] = value
@@ -102,6 +109,8 @@ EV_QUICK = (
     "el_rec", "el_err",
     "tick_ok", "tick_fail",
 )
+# C24, second exploration: single-register writes (the other registers are not re-commanded) next to the batch cycle
+EV_SINGLE = ("wb_new_ok", "wb_new_fail", "wb_same_ok", "w_new_ok", "w_new_ok_pf", "w_same_ok", "w_new_fail", "rb_fail", "tick_ok", "el_rec")
 EV_THOROUGH = EV_QUICK + ("r_ok", "r_fail", "w_new_ok", "w_new_fail", "w_same_ok", "el_small", "wb_half_ok", "w_new_partial_fail")
 
 
@@ -137,6 +146,7 @@ class Sys:
         rec = {"ev": ev, "pre": pre_state, "raised": None, "ret": None}
         f.fail_batch = False
         f.fail_single_write = False
+        f.fail_single_after = None
         f.fail_connect = False
         f.partial = "_partial_" in ev
         self.last_cycle_full_ok = False
@@ -178,7 +188,9 @@ class Sys:
                 vals = [self.commanded[r.name] for r in regs]
                 fail = ev.endswith("fail")
                 f.fail_batch = fail
-                f.fail_single_write = fail or ev.endswith("_pf")
+                f.fail_single_write = fail or (batch and ev.endswith("_pf"))
+                if not batch and ev.endswith("_pf"):
+                    f.fail_single_after = 1          # the commanded write goes through, the flush of buffered values fails
                 if batch:
                     d.write_batch(vals, regs)
                 else:
